@@ -17,7 +17,7 @@ def run(tier):
     json.dump(table[0], open(tf, "w"))
     lmax = 1200 if thorough else 64
     for cfg in ["stable", "nightly"]:
-        for s in range(10 if thorough else 1):
+        for s in range(40 if thorough else 1):
             o = os.path.join(wd, "out_%s.json" % cfg)
             conform(cfg, ["codec", tf, o, ck.seed + s, lmax], timeout=3000)
             _merge(ck, json.load(open(o)), "" if cfg == "stable" else "[nightly] ")
